@@ -634,7 +634,9 @@ def check_C10(tier, seed):
     # structs with two roles: vertex input AND storage-bound (padding-free so that the bytemuck vertex derive accepts them)
     V2 = {"k": "vec", "n": 2, "s": "f32"}
     V4 = F.VEC4
-    for i, mem in enumerate([[V4, V4], [V4, V2, V2], [V2, V2, V4], [V4], [V4, {"k": "vec", "n": 4, "s": "u32"}], [{"k": "vec", "n": 4, "s": "i32"}, V4, V4]]):
+    for i, mem in enumerate([[V4, V4], [V4, V2, V2], [V2, V2, V4], [V4], [V4, {"k": "vec", "n": 4, "s": "u32"}], [{"k": "vec", "n": 4, "s": "i32"}, V4, V4],
+                                   # with padding in front of the vec4: the bytemuck vertex derive rejects these today (permitted), so they only count if they ever compile
+                                   [{"k": "scalar", "s": "f32"}, V4], [V2, V4], [{"k": "scalar", "s": "u32"}, V4, {"k": "scalar", "s": "f32"}]]):
         members = [{"name": "m%d" % j, "ty": t, "io": {"k": "loc", "n": j}} for j, t in enumerate(mem)]
         S = {"structs": [{"name": "Particle", "members": members}],
              "globals": [{"name": "particles", "space": "storage_r", "group": "0", "binding": "0", "ty": {"k": "array", "n": 4, "e": {"k": "struct", "name": "Particle"}}}],
